@@ -3,6 +3,7 @@ package main
 import (
 	"bytes"
 	"context"
+	"encoding/json"
 	"fmt"
 	"os"
 	"os/exec"
@@ -14,6 +15,110 @@ import (
 // findModel searches a witness for a failed obligation: the same script, handed to cvc5's finite model finder
 // (uninterpreted sorts get small finite domains; the proof obligations themselves stay unbounded).
 func findModel(script string, timeoutS int) (string, bool) {
+	m, _, ok := findModelProbes(script, nil, timeoutS)
+	return m, ok
+}
+
+// findModelProbes additionally asks for the values of the probe terms; returns name -> value (SMT-LIB text).
+func findModelProbes(script string, probes []Probe, timeoutS int) (string, map[string]string, bool) {
+	dir, err := os.MkdirTemp("", "govc-model-")
+	if err != nil {
+		return err.Error(), nil, false
+	}
+	defer os.RemoveAll(dir)
+	file := filepath.Join(dir, "m.smt2")
+	body := "(set-option :produce-models true)\n(set-logic ALL)\n" + script
+	for _, p := range probes {
+		body += fmt.Sprintf("(get-value (%s))\n", p.Term)
+	}
+	os.WriteFile(file, []byte(body), 0o644)
+	run := func(argv ...string) string {
+		ctx, cancel := context.WithTimeout(context.Background(), time.Duration(timeoutS+5)*time.Second)
+		defer cancel()
+		cmd := exec.CommandContext(ctx, argv[0], argv[1:]...)
+		var out bytes.Buffer
+		cmd.Stdout = &out
+		cmd.Stderr = &out
+		_ = cmd.Run()
+		return out.String()
+	}
+	text := run("cvc5", "--lang=smt2", fmt.Sprintf("--tlimit=%d", timeoutS*1000), "--finite-model-find", file)
+	lines := strings.Split(text, "\n")
+	candidate := false
+	if strings.TrimSpace(lines[0]) == "unknown" && len(probes) > 0 && len(lines) > 1 && strings.HasPrefix(strings.TrimSpace(lines[1]), "((") {
+		// the finite model finder gave up proving the candidate a model but still reports its values: good enough as
+		// a candidate input, since only a replay on the real code is ever trusted
+		candidate = true
+	}
+	if strings.TrimSpace(lines[0]) != "sat" && !candidate {
+		// second opinion: z3 decides quantifier-light scripts directly
+		text2 := run("z3-new", fmt.Sprintf("-T:%d", timeoutS), file)
+		lines = strings.Split(text2, "\n")
+		if strings.TrimSpace(lines[0]) != "sat" {
+			return text + "\n" + text2, nil, false
+		}
+		text = text2
+	}
+	vals := map[string]string{}
+	// one "((term value))" answer per probe, in order; answers may span lines: re-split on balanced parens
+	rest := strings.Join(lines[1:], "\n")
+	answers := splitSexprs(rest)
+	for i, p := range probes {
+		if i < len(answers) {
+			a := strings.TrimSpace(answers[i])
+			// strip "((" term " " value "))"
+			if strings.HasPrefix(a, "((") && strings.HasSuffix(a, "))") {
+				inner := a[2 : len(a)-2]
+				if strings.HasPrefix(inner, p.Term) {
+					vals[p.Name] = strings.TrimSpace(inner[len(p.Term):])
+					continue
+				}
+				// fall back: value is the last s-expression
+				parts := splitSexprs(inner)
+				if len(parts) > 0 {
+					vals[p.Name] = strings.TrimSpace(parts[len(parts)-1])
+				}
+			}
+		}
+	}
+	return text, vals, true
+}
+
+func splitSexprs(s string) []string {
+	var out []string
+	depth := 0
+	start := -1
+	for i := 0; i < len(s); i++ {
+		switch s[i] {
+		case '(':
+			if depth == 0 && start < 0 {
+				start = i
+			}
+			depth++
+		case ')':
+			depth--
+			if depth == 0 && start >= 0 {
+				out = append(out, s[start:i+1])
+				start = -1
+			}
+		case ' ', '\n', '\t':
+			if depth == 0 && start >= 0 {
+				out = append(out, s[start:i])
+				start = -1
+			}
+		default:
+			if depth == 0 && start < 0 {
+				start = i
+			}
+		}
+	}
+	if start >= 0 {
+		out = append(out, s[start:])
+	}
+	return out
+}
+
+func findModelOld(script string, timeoutS int) (string, bool) {
 	dir, err := os.MkdirTemp("", "govc-model-")
 	if err != nil {
 		return err.Error(), false
@@ -35,6 +140,57 @@ func findModel(script string, timeoutS int) (string, bool) {
 		return text, true
 	}
 	return text, false
+}
+
+// runReplayDriver concretises the probe values through the function's replay driver (/verif/replay/<name>/) and runs
+// the generated input against the real code: an in-package test injected with go test -overlay.
+func runReplayDriver(o *options, name string, ob *Obligation, vals map[string]string, base string) map[string]any {
+	if ob.Replay == "" {
+		return nil
+	}
+	ddir := filepath.Join(o.verif, "replay", ob.Replay)
+	raw, err := os.ReadFile(filepath.Join(ddir, "driver.json"))
+	if err != nil {
+		return map[string]any{"error": err.Error()}
+	}
+	var drv struct {
+		Package string `json:"package"`
+		Test    string `json:"test_file"`
+		Run     string `json:"run"`
+		Race    bool   `json:"race"`
+	}
+	if err := json.Unmarshal(raw, &drv); err != nil {
+		return map[string]any{"error": err.Error()}
+	}
+	input := map[string]any{"obligation": name, "label": ob.Label, "kind": ob.Kind, "site": ob.Site, "probes": vals}
+	inPath := base + ".input.json"
+	writeJSON(inPath, input)
+	tmp, err := os.MkdirTemp("", "govc-replay-")
+	if err != nil {
+		return map[string]any{"error": err.Error()}
+	}
+	defer os.RemoveAll(tmp)
+	ov := filepath.Join(tmp, "overlay.json")
+	target := filepath.Join(o.repo, drv.Package, "zz_govc_replay_test.go")
+	writeJSON(ov, map[string]any{"Replace": map[string]string{target: filepath.Join(ddir, drv.Test)}})
+	args := []string{"test", "-overlay", ov, "-vet=off", "-count=1", "-timeout", "60s", "-run", drv.Run}
+	if drv.Race {
+		args = append(args, "-race")
+	}
+	args = append(args, "./"+drv.Package)
+	ctx, cancel := context.WithTimeout(context.Background(), 180*time.Second)
+	defer cancel()
+	cmd := exec.CommandContext(ctx, "go", args...)
+	cmd.Dir = o.repo
+	cmd.Env = append(os.Environ(), "GOFLAGS=-mod=mod", "GOPROXY=off", "GOSUMDB=off", "GOTOOLCHAIN=local", "GOVC_REPLAY_JSON="+inPath)
+	var out bytes.Buffer
+	cmd.Stdout = &out
+	cmd.Stderr = &out
+	runErr := cmd.Run()
+	text := out.String()
+	res := map[string]any{"driver": ob.Replay, "input": inPath, "cmd": "cd " + o.repo + " && GOVC_REPLAY_JSON=" + inPath + " go " + strings.Join(args, " ") + "   (overlay: " + target + " <- " + filepath.Join(ddir, drv.Test) + ")", "output": trunc(text, 3000)}
+	res["reproduced"] = runErr != nil && strings.Contains(text, "GOVC-REPLAY: VIOLATION")
+	return res
 }
 
 // tryReplay concretises a model for the obligation's replay group and runs it against the real code.
